@@ -32,7 +32,7 @@ import (
 
 // Cfg is one exploration configuration.
 type Cfg struct {
-	Transport   string     `json:"transport"` // local | direct | gob
+	Transport   string     `json:"transport"` // local | direct | gob | sync (LocalReplicaHandle called synchronously, nothing parked)
 	Scripts     [][]string `json:"scripts"`   // per node: section kinds ("rmw", "blind")
 	MaxAttempts int        `json:"max_attempts"`
 	Budget      int        `json:"budget"`
@@ -138,6 +138,24 @@ func (h *handle) Send(req resources.TwoPCRequest, reply *resources.TwoPCResponse
 		w.mu.Unlock()
 		*reply = resources.TwoPCResponse{Accept: true}
 		ch <- nil
+		return ch
+	}
+	if w.cfg.Transport == "sync" {
+		// the repository's in-process transport used the way the repository uses it: Send is a plain function
+		// call inside the sender's goroutine (LocalReplicaHandle.Send); the harness only keeps a record
+		w.noteSent(h.from, h.to, &req)
+		w.mu.Unlock()
+		to := w.nodes[h.to]
+		before := w.dump(h.to)
+		err := <-resources.VerifTwoPCLocalHandle(to.rcvr).Send(req, reply)
+		after := w.dump(h.to)
+		w.mu.Lock()
+		w.noteProcessed(h.from, h.to, &req, &before, &after)
+		if w.tracing {
+			w.trace = append(w.trace, fmt.Sprintf("   [sync] %s(v%d) n%d->n%d: n%d: %s -> %s ; reply accept=%v v%d", req.RequestType, req.Version, h.from, h.to, h.to, short(before), short(after), reply.Accept, reply.Version))
+		}
+		w.mu.Unlock()
+		ch <- err
 		return ch
 	}
 	w.newMsgs = append(w.newMsgs, &msg{from: h.from, to: h.to, req: req, reply: reply, ch: ch})
@@ -249,6 +267,8 @@ type node struct {
 	bcasts           []*bcast
 	abortIgnored     map[int64]bool // accepted pre-commit (by its SenderTime) that survived a newer Abort of the same proposer
 	lastPCTime       int64          // SenderTime of this node's latest PreCommit broadcast
+	attempts         []*attemptRec  // this node's proposals
+	acceptedAt       map[accKey]int // event number at which this node accepted the pre-commit (sender, SenderTime)
 	committedPC      map[int64]bool // SenderTimes of the PreCommit broadcasts whose section went on to Commit
 	commits          int
 }
@@ -258,6 +278,32 @@ func (n *node) ops() string {
 		return "RWPC"
 	}
 	return "WPC"
+}
+
+// mkey identifies one request: all copies (re-sends, duplicates) of it share the key.
+type mkey struct {
+	from, to int
+	typ      resources.TwoPCRequestType
+	time     int64
+}
+
+// mrec is what happened to one request so far (oracle diagnosis: why is a replica still locked?).
+type mrec struct {
+	sent      int   // times the sender handed it to the transport
+	lost      int   // times the sender got an error for it (lost request, lost reply, time-out)
+	processed []int // event numbers at which the receiver processed it
+}
+
+// attemptRec is one proposal of a node: its PreCommit broadcast and what followed.
+type attemptRec struct {
+	pcTime     int64
+	commitTime int64   // SenderTime of its Commit broadcast (0: the section did not commit)
+	abortTimes []int64 // SenderTimes of its Abort broadcasts
+}
+
+type accKey struct {
+	sender int
+	time   int64
 }
 
 type winner struct {
@@ -288,6 +334,9 @@ type world struct {
 	pend     []*msg
 	nextID   int
 	sleepers []sleeper
+
+	hist      map[mkey]*mrec
+	seq       int // number of requests processed so far
 
 	installed map[int]string
 	winners   map[int]winner
@@ -327,10 +376,10 @@ func (w *world) fail(key, format string, a ...any) {
 var iface = distsys.ArchetypeInterface{}
 
 func newWorld(c *explore.Ctx, cfg *Cfg, codec *gobCodec, cnt *counters) *world {
-	w := &world{c: c, cfg: cfg, codec: codec, wake: make(chan struct{}, 1), installed: map[int]string{0: "0"}, winners: map[int]winner{}, cnt: cnt}
+	w := &world{c: c, cfg: cfg, codec: codec, wake: make(chan struct{}, 1), installed: map[int]string{0: "0"}, winners: map[int]winner{}, hist: map[mkey]*mrec{}, cnt: cnt}
 	n := len(cfg.Scripts)
 	for i := 0; i < n; i++ {
-		w.nodes = append(w.nodes, &node{idx: i, id: tla.MakeString("n" + strconv.Itoa(i)), script: cfg.Scripts[i], attMax: cfg.MaxAttempts, phase: 'r', abortIgnored: map[int64]bool{}, committedPC: map[int64]bool{}})
+		w.nodes = append(w.nodes, &node{idx: i, id: tla.MakeString("n" + strconv.Itoa(i)), script: cfg.Scripts[i], attMax: cfg.MaxAttempts, phase: 'r', abortIgnored: map[int64]bool{}, committedPC: map[int64]bool{}, acceptedAt: map[accKey]int{}})
 	}
 	for i, nd := range w.nodes {
 		var hs []resources.ReplicaHandle
@@ -584,14 +633,63 @@ func (w *world) removePend(m *msg) {
 	}
 }
 
+func (w *world) rec(from, to int, req *resources.TwoPCRequest) *mrec {
+	k := mkey{from, to, req.RequestType, req.SenderTime}
+	r := w.hist[k]
+	if r == nil {
+		r = &mrec{}
+		w.hist[k] = r
+	}
+	return r
+}
+
+// noteSent records that `from` handed req to the transport for `to`, and files it under the sender's proposals.
+// Callers hold w.mu in the sync transport (several sender goroutines); elsewhere only the scheduler calls it.
+func (w *world) noteSent(from, to int, req *resources.TwoPCRequest) {
+	w.rec(from, to, req).sent++
+	nd := w.nodes[from]
+	switch req.RequestType {
+	case resources.PreCommit:
+		if len(nd.attempts) == 0 || nd.attempts[len(nd.attempts)-1].pcTime != req.SenderTime {
+			nd.attempts = append(nd.attempts, &attemptRec{pcTime: req.SenderTime})
+		}
+		nd.lastPCTime = req.SenderTime
+	case resources.Commit:
+		if n := len(nd.attempts); n > 0 {
+			nd.attempts[n-1].commitTime = req.SenderTime
+		}
+	case resources.Abort:
+		if n := len(nd.attempts); n > 0 {
+			a := nd.attempts[n-1]
+			if len(a.abortTimes) == 0 || a.abortTimes[len(a.abortTimes)-1] != req.SenderTime {
+				a.abortTimes = append(a.abortTimes, req.SenderTime)
+			}
+		}
+	}
+}
+
+// noteProcessed records that `to` processed req, and the harness's diagnosis of what it did to a held accept.
+func (w *world) noteProcessed(from, to int, req *resources.TwoPCRequest, before, after *resources.VerifTwoPCDump) {
+	w.seq++
+	r := w.rec(from, to, req)
+	r.processed = append(r.processed, w.seq)
+	nd := w.nodes[to]
+	if req.RequestType == resources.PreCommit && after.AcceptedPreCommit && after.Accepted.SenderTime == req.SenderTime &&
+		after.Accepted.Sender.Equal(req.Sender) && !(before.AcceptedPreCommit && before.Accepted.SenderTime == req.SenderTime && before.Accepted.Sender.Equal(req.Sender)) {
+		nd.acceptedAt[accKey{from, req.SenderTime}] = w.seq
+	}
+	// did an Abort of the accepted proposer, not older than the accepted pre-commit, leave the acceptor locked?
+	if req.RequestType == resources.Abort && before.AcceptedPreCommit && after.AcceptedPreCommit &&
+		before.Accepted.Sender.Equal(req.Sender) &&
+		before.Accepted.SenderTime <= req.SenderTime && after.Accepted.SenderTime == before.Accepted.SenderTime {
+		nd.abortIgnored[before.Accepted.SenderTime] = true
+	}
+}
+
 // process hands a request to the receiving node exactly as the transport would.
 func (w *world) process(m *msg) {
 	to := w.nodes[m.to]
-	isAbort := m.req.RequestType == resources.Abort
-	var before resources.VerifTwoPCDump
-	if isAbort || w.tracing {
-		before = w.dump(m.to)
-	}
+	before := w.dump(m.to)
 	var resp resources.TwoPCResponse
 	var err error
 	arg := m.req
@@ -622,17 +720,10 @@ func (w *world) process(m *msg) {
 	if w.cfg.Transport == "gob" && err == nil && !m.dup {
 		m.respGob = w.codec.encodeReply(&resp)
 	}
-	if isAbort || w.tracing {
-		after := w.dump(m.to)
-		// diagnosis only: did a newer Abort of the accepted proposer leave the acceptor locked?
-		if isAbort && before.AcceptedPreCommit && after.AcceptedPreCommit &&
-			before.Accepted.Sender.Equal(m.req.Sender) &&
-			before.Accepted.SenderTime < m.req.SenderTime && after.Accepted.SenderTime == before.Accepted.SenderTime {
-			to.abortIgnored[before.Accepted.SenderTime] = true
-		}
-		if w.tracing {
-			w.logf("   n%d: %s -> %s ; reply accept=%v v%d", m.to, short(before), short(after), resp.Accept, resp.Version)
-		}
+	after := w.dump(m.to)
+	w.noteProcessed(m.from, m.to, &m.req, &before, &after)
+	if w.tracing {
+		w.logf("   n%d: %s -> %s ; reply accept=%v v%d", m.to, short(before), short(after), resp.Accept, resp.Version)
 	}
 	if m.dup {
 		w.removePend(m)
@@ -664,6 +755,7 @@ func (w *world) deliverReply(m *msg) {
 		}
 	}
 	if m.err != nil {
+		w.rec(m.from, m.to, &m.req).lost++
 		if m.req.RequestType != resources.PreCommit {
 			// broadcastAbortOrCommit sleeps one second and then re-sends while its version is unchanged
 			w.sleepers = append(w.sleepers, sleeper{from: m.from, to: m.to, typ: m.req.RequestType, time: m.req.SenderTime, deadline: time.Now().Add(time.Second)})
@@ -721,9 +813,9 @@ func (w *world) settle() {
 			nd.bcasts = append(nd.bcasts, b)
 		}
 		b.outstanding++
+		w.noteSent(m.from, m.to, &m.req)
 		if m.req.RequestType == resources.PreCommit {
 			nd.backoff = false
-			nd.lastPCTime = m.req.SenderTime
 		}
 		// a re-sent Abort/Commit ends the corresponding retry sleep
 		for i, s := range w.sleepers {
@@ -958,42 +1050,19 @@ func (w *world) final() {
 			maxV = ds[i].Version
 		}
 	}
+	// QUIESCENCE-RELEASE: the scripts are done, every message that was sent has been delivered or reported
+	// lost to its sender, no retry timer is pending and nobody proposes anything any more.  Every proposal
+	// is therefore decided: its section committed, or it was aborted.  No replica may still hold one.
 	relKey, relWhat := "", ""
 	locked := -1
 	for i, d := range ds {
-		if !d.AcceptedPreCommit {
+		if !d.AcceptedPreCommit || relKey != "" {
 			continue
 		}
-		ignored := w.nodes[i].abortIgnored[d.Accepted.SenderTime]
-		if d.Accepted.Version <= maxV {
-			// The version it is locked for has been decided elsewhere.  If the proposal it holds was committed
-			// (it missed the Commit) or no Abort reached it (lost, and the proposer stopped retrying because
-			// its version moved) the replica is merely stale: counted, not judged.  But a proposal that was
-			// never committed and whose proposer's later Abort was delivered to this replica while it held
-			// it, without releasing it, is an aborted proposal that was not released.
-			committed := false
-			if s := w.senderIdx(d.Accepted.Sender); s >= 0 {
-				committed = w.nodes[s].committedPC[d.Accepted.SenderTime]
-			}
-			if !ignored || committed {
-				w.cnt.staleAcceptDecided.Add(1)
-				continue
-			}
-		}
-		if relKey != "" {
-			continue
-		}
-		cause := "no-abort-after-accept"
-		if ignored {
-			cause = "abort-ignored"
-		}
+		cause, why := w.whyLocked(i, &d)
 		relKey = "release/" + cause
 		locked = i
-		if d.Accepted.Version <= maxV {
-			relWhat = fmt.Sprintf("quiescent (no message pending, no section in flight, no retry timer) but n%d still holds the pre-commit of %s for version %d although that proposal was aborted and the proposer's Abort was delivered to n%d while it held it (n%d is at version %d, highest installed version %d): the aborted proposal was not released", i, d.Accepted.Sender, d.Accepted.Version, i, i, d.Version, maxV)
-		} else {
-			relWhat = fmt.Sprintf("quiescent (no message pending, no section in flight, no retry timer) but n%d still holds the pre-commit of %s for version %d, which was never committed (highest installed version %d): the aborted proposal was not released", i, d.Accepted.Sender, d.Accepted.Version, maxV)
-		}
+		relWhat = fmt.Sprintf("quiescent (scripts done, nothing in flight, no retry timer, nobody else proposes) but n%d (at version %d) still holds the pre-commit of %s for version %d; highest installed version %d; %s", i, d.Version, d.Accepted.Sender, d.Accepted.Version, maxV, why)
 		w.logf("RELEASE VIOLATED: %s", relWhat)
 	}
 	// progress: every node in turn runs one more increment alone, no faults, FIFO delivery, 3 attempts
@@ -1047,6 +1116,87 @@ func (w *world) final() {
 		w.fail("no-progress", "after quiescence every node in turn ran an increment alone (no faults, all messages delivered, 3 attempts each) and none could commit: %s", strings.Join(st, " "))
 	}
 	w.c.Outcome("probe-ok=" + strconv.Itoa(ok))
+}
+
+// relInfo gathers what the oracle's diagnosis depends on for the proposal of node s whose PreCommit carried
+// pcTime, as seen from replica r: did its section commit, were its Commit / Aborts handed to the transport
+// for r, reported lost to s, processed by r before / after event `since`.
+type relInfo struct {
+	known, committed, anyAbort     bool
+	sent, lost, procBefore, procAfter int
+}
+
+func (w *world) relInfoOf(s int, pcTime int64, r int, since int) relInfo {
+	var att *attemptRec
+	for _, a := range w.nodes[s].attempts {
+		if a.pcTime == pcTime {
+			att = a
+		}
+	}
+	if att == nil {
+		return relInfo{}
+	}
+	ri := relInfo{known: true, committed: att.commitTime != 0, anyAbort: len(att.abortTimes) > 0}
+	add := func(typ resources.TwoPCRequestType, t int64) {
+		m := w.hist[mkey{s, r, typ, t}]
+		if m == nil {
+			return
+		}
+		ri.sent += m.sent
+		ri.lost += m.lost
+		for _, e := range m.processed {
+			if e > since {
+				ri.procAfter++
+			} else {
+				ri.procBefore++
+			}
+		}
+	}
+	if ri.committed {
+		add(resources.Commit, att.commitTime)
+	} else {
+		for _, t := range att.abortTimes {
+			add(resources.Abort, t)
+		}
+	}
+	return ri
+}
+
+// whyLocked names the reason why replica i still holds a pre-commit at quiescence.  The names
+// lost-commit-not-resent and lost-abort-not-resent are reserved for: the message that would have released
+// the replica was reported lost to its sender and was never sent again (the sender stops re-sending once its
+// own version has moved on).  Everything else is a different defect.
+func (w *world) whyLocked(i int, d *resources.VerifTwoPCDump) (cause, why string) {
+	s := w.senderIdx(d.Accepted.Sender)
+	if s < 0 {
+		return "still-accepted", "the proposer is unknown to the harness"
+	}
+	since := w.nodes[i].acceptedAt[accKey{s, d.Accepted.SenderTime}]
+	ri := w.relInfoOf(s, d.Accepted.SenderTime, i, since)
+	ignored := w.nodes[i].abortIgnored[d.Accepted.SenderTime]
+	switch {
+	case !ri.known:
+		return "still-accepted", "the harness has no record of that proposal"
+	case ri.committed && ri.sent == 0:
+		return "commit-never-sent", fmt.Sprintf("n%d committed that proposal but never handed the Commit for n%d to the transport", s, i)
+	case ri.committed && ri.procAfter > 0:
+		return "still-accepted", fmt.Sprintf("n%d committed that proposal and n%d processed the Commit, yet it still holds the pre-commit", s, i)
+	case ri.committed && ri.lost > 0:
+		return "lost-commit-not-resent", fmt.Sprintf("n%d committed that proposal; its Commit to n%d was reported lost %d time(s) (sent %d time(s)) and was not sent again after n%d's own version had moved on: n%d never installs the decided version and stays locked", s, i, ri.lost, ri.sent, s, i)
+	case ri.committed:
+		return "still-accepted", fmt.Sprintf("n%d committed that proposal; Commit to n%d sent %d time(s), not lost, processed before the accept %d time(s)", s, i, ri.sent, ri.procBefore)
+	case ignored:
+		return "abort-ignored", fmt.Sprintf("that proposal was aborted and n%d's Abort was delivered to n%d while it held it: the aborted proposal was not released", s, i)
+	case !ri.anyAbort:
+		return "no-abort-after-accept", fmt.Sprintf("that proposal did not commit and n%d never broadcast an Abort for it", s)
+	case ri.procBefore > 0:
+		return "no-abort-after-accept", fmt.Sprintf("that proposal was aborted; n%d processed n%d's Abort before it accepted the (late) pre-commit, and nothing releases it afterwards", i, s)
+	case ri.sent == 0:
+		return "abort-never-sent", fmt.Sprintf("that proposal was aborted but n%d never handed the Abort for n%d to the transport", s, i)
+	case ri.lost > 0:
+		return "lost-abort-not-resent", fmt.Sprintf("that proposal was aborted; n%d's Abort to n%d was reported lost %d time(s) (sent %d time(s)) and was not sent again after n%d's own version had moved on: the aborted proposal is never released", s, i, ri.lost, ri.sent, s)
+	}
+	return "still-accepted", fmt.Sprintf("that proposal was aborted; Abort to n%d sent %d, lost %d, processed after the accept %d", i, ri.sent, ri.lost, ri.procAfter)
 }
 
 // probeOrder: the replica that holds an unreleased proposal first (so the report can say what happens to it
@@ -1129,6 +1279,16 @@ func (w *world) kVal(v tla.Value) {
 		w.kb = append(w.kb, v.String()...)
 	}
 }
+// kRel: the oracle's diagnosis inputs, by what they can still change in a verdict (zero / non-zero)
+func (w *world) kRel(ri relInfo) {
+	w.kBool(ri.committed)
+	w.kBool(ri.anyAbort)
+	w.kBool(ri.sent > 0)
+	w.kBool(ri.lost > 0)
+	w.kBool(ri.procBefore > 0)
+	w.kBool(ri.procAfter > 0)
+}
+
 func (w *world) kBool(b bool) {
 	if b {
 		w.kb = append(w.kb, 'T')
@@ -1245,6 +1405,7 @@ func (w *world) nodeSeg(k *keyCtx, i int) {
 		if s >= 0 {
 			w.kInt(k.times[s].rank(d.Accepted.SenderTime))
 			w.kBool(w.nodes[s].committedPC[d.Accepted.SenderTime])
+			w.kRel(w.relInfoOf(s, d.Accepted.SenderTime, i, nd.acceptedAt[accKey{s, d.Accepted.SenderTime}]))
 		}
 		w.kBool(nd.abortIgnored[d.Accepted.SenderTime])
 	}
@@ -1344,6 +1505,18 @@ func (w *world) msgSeg(k *keyCtx, m *msg, withTo bool) string {
 	}
 	if m.dupped {
 		b = append(b, ".dd"...)
+	}
+	if m.req.RequestType == resources.PreCommit && m.stage == 0 {
+		// if the receiver accepts it (late), the oracle's diagnosis depends on what already happened to the
+		// Commit / Aborts of that proposal on this link
+		ri := w.relInfoOf(m.from, m.req.SenderTime, m.to, w.seq)
+		for _, x := range []bool{ri.committed, ri.anyAbort, ri.sent > 0, ri.lost > 0, ri.procBefore > 0} {
+			if x {
+				b = append(b, 'T')
+			} else {
+				b = append(b, 'F')
+			}
+		}
 	}
 	return string(b)
 }
